@@ -489,3 +489,72 @@ Definition sel_empty (sel : subsel) : bool := match sel with [] => true | _ => f
    combinations out of the same searchContext; the part matches iff something is left *)
 Definition rel_filters (ops : list (list nat * list (list nat))) (sel : subsel) : bool :=
   negb (sel_empty (fold_left (fun s op => sel_remove (fst op) (snd op) s) ops sel)).
+
+(* ------------------------------------------------------------------ *)
+(* Number / time relations to sub-queries (buildSearchObjects)        *)
+(* ------------------------------------------------------------------ *)
+(* One NumberCondition (TimeCondition: the same code over durations) that mentions other sub-queries:
+     n(s) + sum_i value_i(result of sub-query i) >= 0
+   Per sub-query the distinct values of its results are collected with the positions that have them
+   (map + append), sorted ascending (sort.Slice).  For the LAST sub-query the position sets are made
+   cumulative.  The filter enumerates the value combinations of all but the last sub-query (odometer,
+   first index fastest) and cuts the invalid part of the last one by binary search. *)
+Definition sqdata := list (Z * list nat).
+
+(* numbers[n] / append / sort.Slice: insertion into the ascending list of distinct values *)
+Fixpoint ins_value (v : Z) (p : nat) (d : sqdata) : sqdata :=
+  match d with
+  | [] => [(v, [p])]
+  | (w, r) :: d' =>
+      if Z.ltb v w then (v, [p]) :: d
+      else if Z.eqb v w then (w, r ++ [p]) :: d'
+      else (w, r) :: ins_value v p d'
+  end.
+
+Fixpoint group_from (p : nat) (vals : list Z) (d : sqdata) : sqdata :=
+  match vals with
+  | [] => d
+  | v :: vals' => group_from (S p) vals' (ins_value v p d)
+  end.
+Definition group_values (vals : list Z) : sqdata := group_from 0 vals [].
+
+(* element n will contain the range of elements 0..n *)
+Fixpoint cumulative (acc : list nat) (d : sqdata) : sqdata :=
+  match d with
+  | [] => []
+  | (v, r) :: d' => (v, acc ++ r) :: cumulative (acc ++ r) d'
+  end.
+
+(* the value combinations of the sub-queries in front of the last one: (sum, position sets), first fastest *)
+Fixpoint prefixes (ds : list sqdata) : list (Z * list (list nat)) :=
+  match ds with
+  | [] => [(0%Z, [])]
+  | d :: ds' => flat_map (fun sr => map (fun vr => (Z.add (fst vr) (fst sr), snd vr :: snd sr)) d) (prefixes ds')
+  end.
+
+Definition first_value (d : sqdata) : Z := match d with [] => 0%Z | (v, _) :: _ => v end.
+Definition last_value (d : sqdata) : Z := fst (last d (0%Z, [])).
+
+(* one round of the loop: what is removed for the combination [pre] *)
+Definition number_op (n : Z) (sqs : list nat) (lastd : sqdata) (pre : Z * list (list nat))
+  : option (list nat * list (list nat)) :=
+  let sqN := Z.add n (fst pre) in
+  if Z.leb 0 (Z.add sqN (first_value lastd)) then None
+  else if Z.ltb (Z.add sqN (last_value lastd)) 0 then Some (removelast sqs, snd pre)
+  else
+    let li := bsearch (fun i => Z.leb 0 (Z.add sqN (fst (nth (S i) lastd (0%Z, []))))) (length lastd - 2) in
+    Some (sqs, snd pre ++ [snd (nth li (cumulative [] lastd) (0%Z, []))]).
+
+(* the filter: [datas] in the order of [sqs], the last one is the one cut by binary search *)
+Definition number_filter (n : Z) (sqs : list nat) (datas : list sqdata) (sel : subsel) : subsel * bool :=
+  let min_sum := fold_right (fun d a => Z.add (first_value d) a) 0%Z datas in
+  let max_sum := fold_right (fun d a => Z.add (last_value d) a) 0%Z datas in
+  if Z.leb 0 (Z.add n min_sum) then (sel, true)
+  else if Z.ltb (Z.add n max_sum) 0 then (sel, false)
+  else
+    let lastd := last datas [] in
+    let sel' := fold_left (fun s pre => match number_op n sqs lastd pre with
+                                        | Some op => sel_remove (fst op) (snd op) s
+                                        | None => s
+                                        end) (prefixes (removelast datas)) sel in
+    (sel', negb (sel_empty sel')).
